@@ -137,7 +137,7 @@ def gen(rng, tier):
         prm = [None] * nd; prm[i] = u
         nt = [0] * nd; nt[i] = 1
         line = "ops %s %s R %s %s 1" % (KO.KIND[d['kind']], S.args(d), KO.opt(prm), ",".join(map(str, nt)))
-        out.append(Case('rem-only', line, dict(shape=d, dir=i, prm=prm, nt=nt)))
+        out.append(Case('rem-only', line, dict(shape=d, dir=i, prm=prm, nt=nt), tags=('diagnostic',)))
     # the LIST-OF-ROWS branch of helpers.knot_removal (what operations.remove_knot feeds for volumes), helper
     # level, against `knotRemovalRows`: rows produced by insertion (removable), random rows (not removable;
     # with 2+ copies the sweep writes into a row of ctrlpts_new through `temp`), and rows in which only the
@@ -178,7 +178,7 @@ def gen(rng, tier):
         k = RO.span(kv, p, n_, u)
         G.count('rows_rem', (mode, num))
         out.append(Case('rem-rows', RO.rows_line('rowsrem', p, kv, R, fr(u), num, s, k),
-                        dict(p=p, kv=kv, R=R, u=u, num=num, s=s, k=k, mode=mode), tags=(mode,)))
+                        dict(p=p, kv=kv, R=R, u=u, num=num, s=s, k=k, mode=mode), tags=((mode,) if mode == 'inserted' else (mode, 'diagnostic'))))
     # the three witnesses of Props/C06.lean (knotRemovalRows_refutes_*): rows branch vs per-iso-curve model
     kvq = [F(0)] * 3 + [F(1, 2)] + [F(1)] * 3
     A_ = [[F(0)], [F(1)], [F(1)], [F(0)]]; B_ = [[F(0)], [F(1)], [F(3)], [F(0)]]
@@ -344,6 +344,7 @@ def oracle(c):
     i = c.data['dir']
     t = c.data['nt'][i]
     if c.kind == 'rem-only':
+        return None      # a knot that is NOT removable: outside the property (diagnostic correspondence only)
         # documented behaviour kept by the library's own tests: the counts always drop
         p, kv, n = S.dirs(before)[i]
         p2, kv2, n2 = S.dirs(after)[i]
